@@ -249,8 +249,7 @@ let check_metrics (arena : unit arena) (root : int) (fuel : nat) (idxs : int lis
   | None -> viol "metrics-tree" "the dumped arena does not unfold to a tree from its root"
   | Some t ->
     let all_idx = List.sort compare (List.map ii (indices t)) in
-    let leaf_of i = (match unfold arena fuel (ni i) with Some s -> ii (nleaves s) = 1 && ii (size s) = 1 | None -> false) in
-    let term_idx = List.filter leaf_of all_idx and dec_idx = List.filter (fun i -> not (leaf_of i)) all_idx in
+    let term_idx = List.sort compare (List.map ii (leaf_indices t)) and dec_idx = List.sort compare (List.map ii (inner_indices t)) in
     let lds = List.map ii (leafdepths O t) in
     List.iter (fun e ->
         match e with
@@ -281,24 +280,24 @@ let check_metrics (arena : unit arena) (root : int) (fuel : nat) (idxs : int lis
         | List [Atom "depth_stats"; Atom "p"] -> viol "metrics-depth_stats" "depth_stats panicked"
         | List [Atom "depth_stats"; mn; mean; var; mx] ->
           bump "metric_values";
-          let nats = List.map ni lds in
+          let (((dmin, dmean), dvar), dmax) = depth_stats_direct t in
           let exact_tok name tok (o : nat option) =
             (match o with
              | Some k -> if not (try qeqb (qc_of_token tok) (qc_of_int (ii k)) with Nonfinite -> false) then
                  viol "metrics-depth_stats" (Printf.sprintf "depth_stats %s = %s, terminal depths are [%s]" name tok (ints lds))
              | None -> ()) in
-          exact_tok "min" (atom mn) (list_min nats);
-          exact_tok "max" (atom mx) (list_max_opt nats);
-          (match sample_mean nats with
+          exact_tok "min" (atom mn) dmin;
+          exact_tok "max" (atom mx) dmax;
+          (match dmean with
            | Some mu -> if not (close (atom mean) mu) then
                viol "metrics-depth_stats" (Printf.sprintf "depth_stats mean = %s, exact mean %s of terminal depths [%s]" (atom mean) (string_of_qc mu) (ints lds))
            | None -> ());
-          (match sample_var nats with
+          (match dvar with
            | Some s2 -> if not (close (atom var) s2) then
                viol "metrics-depth_stats" (Printf.sprintf "depth_stats variance = %s, exact sample variance %s of terminal depths [%s]" (atom var) (string_of_qc s2) (ints lds))
            | None -> if atom var <> "nan" then
                viol "metrics-depth_stats" (Printf.sprintf "depth_stats variance = %s for fewer than two terminals (NaN documented)" (atom var)));
-          (match terminal_depths arena (ni root) with ROk l when List.map ii l = lds -> () | _ -> bump "mirror_mismatch")
+          (match depth_stats arena (ni root) with ROk st when st = depth_stats_direct t -> () | _ -> bump "mirror_mismatch")
         | List (Atom "paths" :: l) ->
           List.iter (function
               | List [i; res] ->
@@ -364,24 +363,30 @@ let check (case : Sexp.t) : unit =
   Hashtbl.reset viols;
   mirror_note := None;
   match case with
-  | List [Atom "case"; Atom id; Atom "tree"; Atom ks; ar; List (Atom "metrics" :: m); List (Atom "runs" :: runs)] ->
+  | List [Atom "case"; Atom id; Atom "tree"; Atom ks; List [Atom "gen"; removed; reused]; ar; List (Atom "metrics" :: m); List (Atom "runs" :: runs)] ->
     bump ("K" ^ ks);
+    if int_of removed > 0 then bump "arenas_after_removals";
+    if int_of reused > 0 then bump "arenas_with_reused_indices";
     let (root, arena, idxs) = arena_of_sexp ar in
     let fuel = ni (List.length arena + 1) in
     let holes = List.length arena - List.length idxs in
     if holes > 0 then bump "arenas_with_holes";
     (* the hypothesis of the theorems: the arena is a tree below its root and holds nothing else *)
-    (match unfold arena fuel (ni root) with
-     | Some t when ii (size t) = ii (alen arena) -> ()
-     | _ -> viol "tree-inv" "the dumped arena is not exactly a tree below its root (hypothesis tree_inv of the C13 theorems)");
+    (match minvb arena (ni root) with
+     | Some _ -> ()
+     | None -> viol "tree-inv" "the dumped arena violates the hypothesis of the C13 theorems (minvb = None: not exactly a tree below its root, or leaf flags / parent links inconsistent)");
     if not use_v0 then check_metrics arena root fuel idxs m;
     List.iter (check_run arena root fuel) runs;
-    if List.length idxs > 3 && (holes > 0 || ks = "3") then bump "nontrivial";
+    if List.length idxs > 3 && (holes > 0 || int_of reused > 0 || ks = "3") then bump "nontrivial";
     finish id "tree"
   | List [Atom "case"; Atom id; Atom "poly"; Atom _; ar; List (Atom "runs" :: runs)] ->
     bump "poly_cases";
     let (root, arena, idxs) = arena_of_sexp ar in
     let fuel = ni (List.length arena + 1) in
+    if List.length arena > List.length idxs then bump "arenas_with_holes";
+    (match minvb arena (ni root) with
+     | Some _ -> ()
+     | None -> viol "tree-inv" "the dumped arena violates the hypothesis of the C13 theorems (minvb = None)");
     List.iter (check_run arena root fuel) runs;
     if List.length idxs > 3 then bump "nontrivial";
     finish id "poly"
